@@ -1083,6 +1083,17 @@ def p6_world_len(prog):
             part = p.calls(lambda e: e['name'] in partners and ('archetype' in e['path'] or 'Archetype' in e['path'] or e['f'].get('trait') == 'core::clone::Clone'))
             if kind == 'copy':
                 part = [e for e in part if any(pathsem.mentions(v, lambda t: t[0] == 'p' and t[1] == 2) for v in list(e['args']) + list(e['vals']))]
+            if kind == 'set' and stores and not part:
+                # the structural change done table by table: a loop over all of self's archetypes that has run out,
+                # with every table it yielded cleared
+                ai_ = names.index('archetypes')
+                its = [(a_, v) for a_, v in p.conds if isinstance(a_, tuple) and a_[0] in ('next', 'nonempty', 'exhausted') and
+                       pathsem.mentions(pathsem.iter_chain(a_[1])[0], lambda t: pathsem.is_field_of(t, 'world::World', ai_) and pathsem.mentions(t, lambda u: u[0] == 'p' and u[1] == 1))]
+                ended = any((a_[0] == 'next' and v == 0) or (a_[0] == 'exhausted' and v is True) for a_, v in its) or (its and its[-1][0][0] == 'nonempty' and its[-1][1] is False)
+                els = [pathsem.canon(('elem', a_[1]) + tuple(a_[2:3])) for a_, v in its if a_[0] == 'next' and v == 1]
+                cleared = p.calls(lambda e: e['name'] in partners and e['path'].startswith('archetype::Archetype'))
+                if ended and all(any(pathsem.canon(S(c['vals'][0])) in (el, ('d', el)) for c in cleared) for el in els):
+                    part = cleared or [{'ln': None}]
             if part and not stores:
                 once('structural-change-without-len', part[0]['ln'], 'a path changes the stored population without updating len')
             if stores and not part:
